@@ -640,12 +640,16 @@ func runC15(c *Ctx) {
 					if !ok {
 						continue
 					}
-					if bo.Op == token.GTR && loadOfField(bo.Y, w.maxMsg) && pr.Succs[0] == b {
+					isMax := func(v ssa.Value) bool { return loadOfField(v, w.maxMsg) }
+					// total > max  (either spelling)
+					if op, _, _, ok := binCmpWhere(bo, isMax); ok && op == token.LSS && pr.Succs[0] == b {
 						gt = true
 					}
 					if bo.Op == token.NEQ && pr.Succs[0] == b {
-						if call, ok := strip(bo.Y).(*ssa.Call); ok && isCallToFn(call, w.payloadLen) {
-							ne = true
+						for _, o := range []ssa.Value{bo.X, bo.Y} {
+							if call, ok := strip(o).(*ssa.Call); ok && isCallToFn(call, w.payloadLen) {
+								ne = true
+							}
 						}
 					}
 				}
@@ -658,10 +662,15 @@ func runC15(c *Ctx) {
 			fresh := false
 			eachInstr(fn, func(in ssa.Instruction) {
 				bo, ok := in.(*ssa.BinOp)
-				if !ok || bo.Op != token.GTR || !loadOfField(bo.Y, w.maxMsg) {
+				if !ok {
 					return
 				}
-				x := stripConv(bo.X)
+				// max < total  <=>  total > max: orient with the limit on the left
+				op0, _, tot, ok0 := binCmpWhere(bo, func(v ssa.Value) bool { return loadOfField(v, w.maxMsg) })
+				if !ok0 || op0 != token.LSS {
+					return
+				}
+				x := stripConv(tot)
 				// blocking reader: total + copy(...)
 				if add, ok := x.(*ssa.BinOp); ok && add.Op == token.ADD {
 					for _, op := range []ssa.Value{add.X, add.Y} {
@@ -708,7 +717,10 @@ func runC15(c *Ctx) {
 			n++
 			upper, lower := false, false
 			for _, l := range guardsOf(r.Block()) {
-				op, x, y, ok := l.cmp()
+				op, x, y, ok := l.cmpWhere(func(v ssa.Value) bool {
+					call, ok := strip(v).(*ssa.Call)
+					return ok && isCallToFn(call, w.payloadLen)
+				})
 				if !ok {
 					continue
 				}
